@@ -714,6 +714,20 @@ def fam_observers(rng, n, dist):
                 b.failing(("S", verb, None), cmds=[])
             dist.add("observer:command-on-a-closed-connection")
         out.append(b.scenario())
+    # always there (not left to the draw): REIN answered by 120 and then the final reply - the observers are told of both
+    for k in range(3):
+        b = S.Builder(rng, *ALL_METHODS[k % 4])
+        b.add_observer(1)
+        if k:
+            b.add_observer(2)
+        b.connect(login=(b"u", b"p"), greeting=((120, 220) if k == 2 else (220,)))
+        add_simple(b, rng, 200)
+        b.logout(codes=[(120, 220), (120, 230), (120, 530)][k])
+        b.login(b"again", b"pw")
+        b.simple(b"NOOP", None, 200)
+        b.disconnect(True)
+        dist.add("observer:logout-answered-120-then-final")
+        out.append(b.scenario())
     # a reply line longer than the receive buffer (8192 bytes with its terminator): the call fails - the observers are told
     # of nothing that is not a reply on the wire (no piece of the line passed off as a reply); a line of exactly the
     # largest size is a reply like any other
